@@ -51,10 +51,15 @@ Ros2Fails(e) ==
     IF "panic" \in DOMAIN e.out \/ "hang" \in DOMAIN e.out THEN {"returns"}
     ELSE Ros2LwFails(e) \cup
          LET v == Ros2Def(e.op, e.in)
-         IN IF v = NONE
-            THEN (IF IsErr(e.out) THEN {} ELSE {"err_iff_no_fixed_point"})
-            ELSE (IF IsOk(e.out) THEN (IF e.out.ok = v THEN {} ELSE {"equals_exhaustive_evaluation"})
-                  ELSE {"err_iff_no_fixed_point"})
+             agrees == IF v = NONE THEN IsErr(e.out) ELSE (IsOk(e.out) /\ e.out.ok = v)
+         IN IF agrees THEN {}
+            ELSE IF e.op \in {"ros2_es", "ros2_timer", "ros2_pp", "ros2_chain"}
+                    /\ LET vs == Ros2StepsOnly(e.op, e.in)
+                       IN IF vs = NONE THEN IsErr(e.out) ELSE (IsOk(e.out) /\ e.out.ok = vs)
+                 \* the value is the one obtained when only the demand's step offsets are examined, and an
+                 \* offset that is NOT a step attains more: the pruning of the search space is not lossless here
+                 THEN {"step_pruning_loses_offsets"}
+                 ELSE IF v = NONE \/ IsErr(e.out) THEN {"err_iff_no_fixed_point"} ELSE {"equals_exhaustive_evaluation"}
 
 \* ---- C19 -------------------------------------------------------------------
 \* two calls that model the same system: same Ok value / both Err
